@@ -111,7 +111,8 @@ class AsNumberAnonymizer(object):
         # Match a non-digit, any of the AS numbers and another non-digit
         # Using lookahead and lookbehind to match on context but not include that context in the match
         self.as_num_regex = re.compile(
-            r"(?:(?<=\D)|(?<=^))({})(?=\D|$)".format("|".join(as_numbers))
+            # An empty list must match nothing, not the empty string
+            r"(?:(?<=\D)|(?<=^))({})(?=\D|$)".format("|".join(as_numbers) or "(?!)")
         )
 
     def _generate_as_number_replacement(self, as_number):
